@@ -10,7 +10,7 @@ static long n_exec, n_calls; static cx_set outs;
 static const char *PROPS;
 
 /* ---- payloads ---- */
-static hx_buf PAY[8]; static const char *PAYNAME[8]; static int NPAY;
+static hx_buf PAY[10]; static const char *PAYNAME[10]; static int NPAY;
 static void make_payloads(int big) {
     PAYNAME[NPAY] = "empty"; NPAY++;
     PAYNAME[NPAY] = "1 byte"; hb_putc(&PAY[NPAY], 'x'); NPAY++;
@@ -18,6 +18,8 @@ static void make_payloads(int big) {
     PAYNAME[NPAY] = "300 pseudo-random bytes"; { uint32_t s = 12345; for (int i = 0; i < 300; i++) { s = s * 1103515245u + 12345u; hb_putc(&PAY[NPAY], (int) (s >> 16 & 0xff)); } } NPAY++;
     if (big) {
         PAYNAME[NPAY] = "20 KiB text"; for (int i = 0; i < 640; i++) hb_printf(&PAY[NPAY], "line %4d of some text body\r\n", i); NPAY++;
+        /* incompressible: the coded stream is longer than one output buffer, so a piece of it that arrives after the first bytes does not fit the decoder's hold-back buffer */
+        PAYNAME[NPAY] = "24 KiB pseudo-random bytes"; { uint32_t s = 777; for (int i = 0; i < 24576; i++) { s = s * 1103515245u + 12345u; hb_putc(&PAY[NPAY], (int) (s >> 16 & 0xff)); } } NPAY++;
         PAYNAME[NPAY] = "100 KiB zeros"; { static uint8_t z[102400]; hb_put(&PAY[NPAY], z, sizeof z); } NPAY++;
     }
 }
